@@ -2,9 +2,12 @@ SPECIFICATION TSpec
 CONSTANTS
   MaxBytes = 1
   Cuts = {"origin", "transit"}
+  MaxNotices = 1000000
+  NoticeEndsStream = FALSE
   OriginErrorFatal = TRUE
 INVARIANTS
   Prefix
   EOFOnlyAfterAll
+  NoSpontaneousClose
   Done
 CHECK_DEADLOCK FALSE
